@@ -4,7 +4,7 @@ namespace Conn
 
 /-- Labels that touch the outgoing-call part of the state. -/
 def Label.touchesCalls : Label → Bool
-  | .ecall | .ectx _ | .wret (.call _) _ | .c1 _ | .retire _ | .rresp | .rx
+  | .ecall | .ecallbad | .ectx _ | .wret (.call _) _ | .c1 _ | .retire _ | .rresp | .rx
   | .w1 (.call _) | .w2 (.call _) => true
   | _ => false
 
@@ -169,7 +169,9 @@ theorem calls_get {s : St} {n : Nat} {c : Call} (hc : getCall s n = some c) : s.
   simp only [getCall_eq] at hc; have : n ≠ 0 := by omega
   simpa [this] using hc
 
-theorem cinv_ecall {s : St} (i : CInv s) : CInv { s with calls := s.calls ++ [{}] } := by
+/-- A new call record is appended (a user started a call). -/
+theorem cinv_newcall {s : St} (i : CInv s) (c0 : Call)
+    (h0 : ∀ n, n ∉ s.outCalls → CallOK s.outCalls s.respLog n c0) : CInv { s with calls := s.calls ++ [c0] } := by
   refine ⟨i.nodup, ?_, ?_, i.nopanic⟩
   · intro n hn; have := i.inrange n hn; simp; omega
   · intro n c hc
@@ -184,12 +186,20 @@ theorem cinv_ecall {s : St} (i : CInv s) : CInv { s with calls := s.calls ++ [{}
         have hidx : n - 1 - s.calls.length = 0 := by
           by_cases h0 : n - 1 - s.calls.length = 0
           · exact h0
-          · have : ([({} : Call)])[n - 1 - s.calls.length]? = none := by
+          · have : ([c0])[n - 1 - s.calls.length]? = none := by
               apply List.getElem?_eq_none; simp; omega
             rw [this] at hc; cases hc
         rw [hidx] at hc; simp at hc; subst hc
         have hnot : n ∉ s.outCalls := fun h => by have := (i.inrange n h).2; omega
-        exact ⟨by simp [hnot], by simp, by simp, by simp, by simp, by simp, by simp, by simp⟩
+        exact h0 n hnot
+
+theorem cinv_ecall {s : St} (i : CInv s) : CInv { s with calls := s.calls ++ [{}] } :=
+  cinv_newcall i {} (fun n hnot => ⟨by simp [hnot], by simp, by simp, by simp, by simp, by simp, by simp, by simp⟩)
+
+/-- A call whose params cannot be encoded: completed at once, never registered. -/
+theorem cinv_ecallbad {s : St} (i : CInv s) : CInv { s with calls := s.calls ++
+    [{ pc := .fin, ready := some (.err .marshal), result := some (.err .marshal), retires := 1, registered := false }] } :=
+  cinv_newcall i _ (fun n hnot => ⟨by simp [hnot], by simp, by simp, by simp, by simp, by simp, by simp, by simp⟩)
 
 theorem getCall_retireIn (s : St) (n m : Nat) (c : Call) (r : Res) (hc : getCall s n = some c) (hr : c.ready = none) :
     getCall (retireIn s n r) m =
@@ -283,6 +293,7 @@ theorem cinv_step0_call {s s' : St} {l : Label} (i : CInv s) (h : step0 s l = so
     (hl : l.touchesCalls = true) : CInv s' := by
   cases l <;> simp [Label.touchesCalls] at hl <;> simp only [step0] at h
   case ecall => cases h; exact cinv_ecall i
+  case ecallbad => cases h; exact cinv_ecallbad i
   case ectx n =>
     split at h
     · cases h
